@@ -53,6 +53,7 @@ def run(ctx):
                       what="correspondence accepts_pool <-> direct C02 oracle no longer holds")
     tie_patterns(ctx)
     skeleton_correspondence(ctx)
+    canonical_replay(ctx, entries, cases, outs)
     if tmeta:
         c, o = tmeta[len(tmeta) // 3]
         r = PL.case_replay(c, o)
@@ -103,6 +104,54 @@ def tie_patterns(ctx):
                 if res:
                     ctx.violation("UncertaintySampling", res[0], res[1], {"table": table, "labeled": lab, "bs": bs}, what=res[1])
     ctx.extra["exhaustive_subspace"] = f"all {len(vals)}^{n} score tables over {{0.5,0.5,0.7,0.9}} for the skeleton (UncertaintySampling with a scripted classifier)"
+
+
+def canonical_replay(ctx, entries, cases, outs):
+    """Exact functional correspondence for EVERY registry strategy whose query() ends in the canonical tail (the classes
+    of the regenerated query-tail table, `method="max"`, scores not drawn from the strategy's own generator): the first
+    returned utility row IS the utilities vector handed to simple_batch; the tie-breaking noise is reproduced from a twin's
+    random_state_; the Gallina simple_batch_max has to return the same indices and the same rows."""
+    from skactiveml.base import SingleAnnotatorPoolQueryStrategy as Base
+    from ..translate import skeleton as TS
+    from ..core import fkey, rank_keys, noise_num, vlist, zlist, natlit, natlist, listlit
+    sites, _ = TS.scan()
+    canon = {s_["cls"] for s_ in sites if TS.is_canonical(s_) and s_["method"] is None}
+    other_path = {"BatchBALD", "DiscriminativeAL[greedy=False]"}          # these configurations take the hand-written loop of their class
+    terms, meta = [], []
+    for case, out in zip(cases, outs):
+        E = entries[case["eidx"]]
+        if out["status"] != "ok" or E.mode != "max" or E.stochastic or E.name in other_path or (E.wrapper and E.subsample):
+            continue
+        qs = E.make(case["classes"], case["seed"])
+        if not ({c.__name__ for c in type(qs).__mro__} & canon):
+            continue
+        ut, idx = np.asarray(out["ut"], dtype=float), np.asarray(out["idx"]).ravel()
+        if ut.ndim != 2 or len(idx) == 0 or len(idx) != len(ut) or np.isinf(ut).any():
+            continue
+        cand = None if case["cand"] is None else np.array(case["cand"])
+        import warnings
+        with warnings.catch_warnings():
+            warnings.simplefilter("ignore")
+            Base._validate_data(qs, case["X"], case["y"], cand, case["bs"], True)
+        w = ut.shape[1]
+        noises = [qs.random_state_.random(w) for _ in range(len(idx))]
+        keys = rank_keys([fkey(v) for v in ut.ravel()])
+        U = keys[:w]
+        rows = listlit([vlist(keys[r * w:(r + 1) * w]) for r in range(len(idx))])
+        nz = listlit([zlist(rank_keys([noise_num(x) for x in z])) for z in noises])
+        picks = listlit([natlist([int(p)]) for p in idx])
+        terms.append(f"({vlist(U)}, {natlist([w])}, {nz}, {natlit(len(idx))}, {picks}, {rows})")
+        meta.append((case, out))
+        ctx.count("canonical_replay:" + E.name)
+    bad, err = ctx.coq_eval_cases("replay", "From V Require Import Base.OptOrder Model.Sel Harness.Run Harness.SelCheck.", "check_batch", terms, chunk=200)
+    if err:
+        ctx.violation("canonical_replay", "model_eval_failed", err, {}, found_input=False, what="Coq evaluation of check_batch (canonical replay) failed")
+    for i in bad[:8]:
+        c, o = meta[i]
+        ctx.violation(c["name"], "canonical_replay_mismatch", "indices / rows are not simple_batch_max of the first utility row under the strategy's own noise",
+                      PL.case_replay(c, o), found_input=False,
+                      what=f"correspondence simple_batch_max (Model/Sel.v) <-> {c['name']}.query (canonical tail, noise reproduced) no longer holds")
+    ctx.extra["canonical_replay_strategies"] = sorted({m[0]["name"] for m in meta})
 
 
 def skeleton_correspondence(ctx):
